@@ -143,6 +143,7 @@ TWINS_STACK = {
     "app_memory_write": ["kani:vk_app_memory_two_regions"],
     "find_mapping": ["kani:vk_find_mapping_2"],
     "may_be_stack": ["kani:vk_may_be_stack_rule"],
+    "stack_has_pointer_to_mapping": ["kani:vk_has_ptr_len8", "kani:vk_has_ptr_len17", "kani:vk_has_ptr_len7", "kani:vk_has_ptr_len0"],
     "find_mapping_no_bias": ["kani:vk_find_mapping_no_bias_2"],
 }
 TWINS_DIR = {
@@ -256,14 +257,15 @@ PLAN["C20"] = {
     "level": "proof",
     "explanation": "fill_thread_stack keeps a stack under skip-unreferenced iff the instruction pointer lies in [low, high) of the principal mapping "
                    "or the copied bytes hold an aligned pointer into it; crash_thread_references_principal_mapping uses the same half-open range; "
-                   "the stack scanner itself is checked against has_ptr by Kani (bounded); dump() reports PrincipalMappingNotReferenced (thorough)",
+                   "the stack scanner itself is proved against has_ptr for stack copies of any length (unit stack_scan, byteorder stand-in) and cross-checked by Kani on the real byteorder code at stated lengths; dump() reports PrincipalMappingNotReferenced (thorough)",
     "verus": [dict(STACK, functions=["fill_thread_stack", "crash_thread_references_principal_mapping"], tags=["C20"]),
-              {"unit": "find_mapping", "functions": ["find_mapping_no_bias"], "tags": ["C20"], "tiers": Q}],
+              {"unit": "find_mapping", "functions": ["find_mapping_no_bias"], "tags": ["C20"], "tiers": Q},
+              {"unit": "stack_scan", "functions": ["stack_has_pointer_to_mapping"], "tags": ["C20"], "tiers": Q}],
     "kani": [{"tiers": Q, "jobs": 4, "timeout": 900, "harnesses": K_HAS_PTR},
              {"tiers": T, "jobs": 2, "timeout": 5400, "mem_gb": 24, "harnesses": dict(K_DUMP, **{"vk_has_ptr_len24": H("B", "MappingInfo::stack_has_pointer_to_mapping", "24-byte symbolic stack copy")})}],
     "native": [N_TLS],
     "twins": TWINS_STACK,
-    "trusted": ["stack_has_pointer_to_mapping's contract (has_ptr) is assumed in Verus (byteorder) and checked by Kani at stated lengths"],
+    "trusted": ["stack_has_pointer_to_mapping's contract (has_ptr) is assumed in the unit `stack` and proved in the unit `stack_scan` relative to a stand-in of byteorder's read_u64::<NativeEndian> on &[u8] (little-endian word of the first 8 bytes, Err when shorter); Kani runs the real byteorder code at stated lengths"],
     "samples": ["fill_thread_stack ensures: skip && principal is Some && included ==> ip_in(pm, ip) || exists bytes. copy_ok(..) && has_ptr(bytes, ..)  [C20]"],
 }
 
@@ -481,6 +483,7 @@ PLAN["C02"] = {
               {"unit": "app_memory", "functions": ["app_memory_write"], "tags": ["C02"], "tiers": Q},
               {"unit": "maps_filter", "functions": ["is_interesting", "is_contained_in"], "tags": ["C02"], "tiers": Q},
               {"unit": "find_mapping", "functions": ["find_mapping", "find_mapping_no_bias", "may_be_stack"], "tags": ["C02"], "tiers": Q},
+              {"unit": "stack_scan", "functions": ["stack_has_pointer_to_mapping"], "tags": ["C02"], "tiers": Q},
               {"unit": "mem_writer", "functions": None, "tags": ["C02"], "tiers": Q}],
     "kani": [{"tiers": Q, "jobs": 8, "timeout": 1200, "harnesses": dict(K_HAS_PTR, **dict(K_FIND, **{"vk_safe_to_open_table": H("B", "MappingInfo::is_mapped_file_safe_to_open", "5 concrete names")}))}],
     "native": [N_PD_TOTAL,
